@@ -247,15 +247,51 @@ def error_matching(ctx):
     if fi is None:
         raise AnchorMissing('receive thread not found')
     ctx.analysed(fi)
-    ok = False
     from sa.lib import deep_nodes
-    for n in deep_nodes(m, fi):
-        if isinstance(n, ast.Subscript) and src(n.value) == 'REQUEST2REPLY' and 'len(ERRORPREFIX)' in src(n.slice) and 'action[' in src(n.slice):
-            guard = any(isinstance(a, ast.If) and 'startswith(ERRORPREFIX)' in src(a.test) for a in ancestors(n))
-            ok = guard
-    ctx.check(ok, f'{fi.qualname}:error reply matched to its request', fi.node,
-              'REQUEST2REPLY[action[len(ERRORPREFIX):]] under `action.startswith(ERRORPREFIX)`',
-              'an error_<action> reply is not mapped back to the pending request through REQUEST2REPLY: the caller times out', fi)
+    # the unit that does the matching: the receive thread itself or a helper method it calls (not expanded in place)
+    units = [fi] + [h for site, h in helper_methods_called(m, fi)]
+    unit = next((u for u in units if any((isinstance(n, ast.Subscript) and src(n.value) == 'REQUEST2REPLY') or
+                                         (isinstance(n, ast.Call) and call_attr(n) == 'get' and src(n.func.value) == 'REQUEST2REPLY')
+                                         for n in body_walk(u.node))), None)
+    if unit is None:
+        ctx.bad(f'{fi.qualname}:error reply matched to its request', fi.node,
+                'an error_<action> reply is not mapped back to the pending request through REQUEST2REPLY: the caller times out', fi)
+    else:
+        ctx.analysed(unit)
+        ucfg = CFG(unit.node, m, unit.module)
+
+        def is_error(a, tv):
+            return tv and isinstance(a, ast.Call) and call_attr(a) == 'startswith' and a.args and src(a.args[0]) == 'ERRORPREFIX'
+
+        def not_error(a, tv):
+            return not tv and isinstance(a, ast.Call) and call_attr(a) == 'startswith' and a.args and src(a.args[0]) == 'ERRORPREFIX'
+        err_side = sides_with_fact(ucfg, is_error)
+        noerr_side = sides_with_fact(ucfg, not_error)
+        maps = [n for n in body_walk(unit.node) if ((isinstance(n, ast.Subscript) and src(n.value) == 'REQUEST2REPLY' and 'len(ERRORPREFIX)' in src(n.slice)) or
+                                                     (isinstance(n, ast.Call) and call_attr(n) == 'get' and src(n.func.value) == 'REQUEST2REPLY' and n.args
+                                                      and 'len(ERRORPREFIX)' in src(n.args[0])))]
+        ok = bool(maps) and all((st := next((a for a in ancestors(n) if isinstance(a, ast.stmt)), None)) is not None and set(ucfg.ids(st)) <= err_side for n in maps)
+        ctx.check(ok, f'{fi.qualname}:error reply matched to its request', unit.node,
+                  'REQUEST2REPLY[action[len(ERRORPREFIX):]] under `action.startswith(ERRORPREFIX)`',
+                  'an error_<action> reply is not mapped back to the pending request through REQUEST2REPLY: the caller times out', unit)
+        # the catch-all key None (the slot of the ONE request with an unknown action) is tried only for a message that can not
+        # belong to a known request: a non-error message, or the error of an action that is not in REQUEST2REPLY
+        mapped = {t.id for n in body_walk(unit.node) if isinstance(n, ast.Assign) and any(x in maps for x in ast.walk(n.value)) for t in n.targets if isinstance(t, ast.Name)}
+        unknown_side = sides_with_fact(ucfg, lambda a, tv: not tv and isinstance(a, ast.Name) and a.id in mapped)
+        nones = []
+        for n in body_walk(unit.node):
+            if isinstance(n, ast.Assign) and isinstance(n.value, ast.Constant) and n.value.value is None and any(isinstance(t, ast.Name) and 'key' in t.id for t in n.targets):
+                nones.append(n)
+            if isinstance(n, ast.Expr) and isinstance(n.value, ast.Call) and call_attr(n.value) in ('append', 'pop') and n.value.args and \
+                    isinstance(n.value.args[0], ast.Constant) and n.value.args[0].value is None:
+                nones.append(n)
+        for n in nones:
+            ids = set(ucfg.ids(n))
+            in_keyerror = any(part == 'handler' and any(x in maps for st in t.body for x in ast.walk(st)) for t, part in enclosing_tries(n))
+            ok = bool(ids) and (ids <= noerr_side or ids <= unknown_side or in_keyerror)
+            ctx.check(ok, f'{fi.qualname}:catch-all slot only for messages of unknown requests', n, 'None key only for non-error messages / errors of unknown actions',
+                      f'`{src(n)}` lets the error reply of a KNOWN action fall through to the catch-all key None: a late `error_change mod:p` (its caller timed out) is '
+                      'handed to the caller of a concurrent request with an unknown action, whose own reply then ends as an unhandled message', unit)
     tx = next((f for n, f in rx.items() if 'tx' in n), None)
     ok = any(isinstance(n, ast.Call) and call_attr(n) == 'get' and src(n.func.value) == 'REQUEST2REPLY' for n in body_walk(tx.node))
     ctx.check(ok, f'{tx.qualname}:pending key from REQUEST2REPLY', tx.node, 'key = (REQUEST2REPLY.get(action), ident)',
